@@ -344,6 +344,45 @@ def run(ctx):
             for k in list(sys.modules):
                 if k.split(".")[0] == pkg:
                     del sys.modules[k]
+    # a kept function that loads the path of a keep with an argument, both kept under two kept parents in the two orders: the
+    # call-order (dotted) edge must not close a cycle with the load (dashed) edge
+    base = tempfile.mkdtemp(prefix="ddsverif_c18l_")
+    pkg = "c18l_%d" % os.getpid()
+    try:
+        real.reset_process_state()
+        real.set_store("memory", os.path.join(base, "si"), os.path.join(base, "sd"))
+        src = ("import dds\nfrom ddsverif_rt import log, term\n\n"
+               "def y(k):\n    return term('y', k)\n\ndef x():\n    return term('x', dds.load('/g/y'))\n\n"
+               "def a():\n    r1 = dds.keep('/g/y', y, 1)\n    r2 = dds.keep('/g/x', x)\n    return term('a', r1, r2)\n\n"
+               "def b():\n    r2 = dds.keep('/g/x', x)\n    r1 = dds.keep('/g/y', y, 1)\n    return term('b', r1, r2)\n\n"
+               "def f0():\n    return term('f0', dds.keep('/g/a', a), dds.keep('/g/b', b))\n")
+        os.makedirs(os.path.join(base, pkg), exist_ok=True)
+        open(os.path.join(base, pkg, "__init__.py"), "w").close()
+        with open(os.path.join(base, pkg, "main.py"), "w") as fh:
+            fh.write(src)
+        real.load_world(base, pkg + ".main", None, accept=pkg)
+        out = os.path.join(base, "g.dot")
+        r = real.run({"kind": "eval", "fun": "f0"}, {"export_graph": out})
+        res.evaluations += 1
+        res.count("load_edge_pipelines")
+        res.nontrivial("load edge and call order")
+        bad = None
+        if r["error"] is not None:
+            bad = "evaluation with graph export fails: %s" % (r["error"],)
+        else:
+            dn, de = parse_dot(open(out).read())
+            edges = [(a_, b_) for (a_, b_, _) in de]
+            if not acyclic(edges):
+                bad = "the exported graph has a cycle: edges %s" % sorted(de)
+            elif ("/g/y", "/g/x", "dashed") not in de:
+                bad = "the dashed edge /g/y -> /g/x (x loads the path of y) is missing: edges %s" % sorted(de)
+        if bad:
+            res.violations.append({"what": bad, "input": {"source": src, "entry": {"kind": "eval", "fun": "f0"}}, "kf": None})
+    finally:
+        shutil.rmtree(base, ignore_errors=True)
+        for k in list(sys.modules):
+            if k.split(".")[0] == pkg:
+                del sys.modules[k]
     from . import kf_witnesses
     kf_witnesses.run_witness(res, "C18-KF1", kf_witnesses.c18_two_paths_one_signature,
                              "two paths kept with one signature appear as a single node of the graph")
